@@ -5,6 +5,7 @@ import (
 	"go/ast"
 	"go/printer"
 	"go/token"
+	"strings"
 )
 
 // C08Q: the RPC querier's "same fields as the previous event" cache (api/rpc/querier.go, ServerQuerier.query). Found by
@@ -75,6 +76,50 @@ func init() {
 		}
 		l.p("/-- the previous event's fields are remembered as a COPY (`lge.Fields.MakeCopy()`), not as an alias of the record buffer -/")
 		l.p("def querierCacheCopies : Bool := %s", leanBool(copies))
+		// pkg/pipe/worker.go, (*worker).run: the provenance fields are computed in the run itself from the worker's own source
+		// tag line: `F := field.Parse(<… srcTags …>)` and F is the first argument of the iterator's init call
+		prov := true // pinned
+		wf := parseFile("pkg/pipe/worker.go")
+		var wrun *ast.FuncDecl
+		if wf != nil {
+			wrun = funcDecl(wf, "worker", "run")
+		}
+		if wrun == nil {
+			problem("pipe.worker.run not found")
+		} else {
+			parsed := map[string]bool{} // identifiers assigned from field.Parse(… srcTags …)
+			usedInInit := false
+			ast.Inspect(wrun.Body, func(n ast.Node) bool {
+				switch x := n.(type) {
+				case *ast.AssignStmt:
+					if len(x.Lhs) == 1 && len(x.Rhs) == 1 {
+						if ce, ok := x.Rhs[0].(*ast.CallExpr); ok {
+							if se, ok := ce.Fun.(*ast.SelectorExpr); ok && se.Sel.Name == "Parse" && len(ce.Args) == 1 && strings.Contains(pr(ce.Args[0]), "srcTags") {
+								if id, ok := x.Lhs[0].(*ast.Ident); ok {
+									parsed[id.Name] = true
+								}
+							}
+						}
+					}
+				case *ast.CallExpr:
+					if se, ok := x.Fun.(*ast.SelectorExpr); ok && se.Sel.Name == "init" && len(x.Args) >= 1 {
+						if id, ok := x.Args[0].(*ast.Ident); ok && parsed[id.Name] {
+							usedInInit = true
+						}
+						if ce, ok := x.Args[0].(*ast.CallExpr); ok {
+							if s2, ok := ce.Fun.(*ast.SelectorExpr); ok && s2.Sel.Name == "Parse" && len(ce.Args) == 1 && strings.Contains(pr(ce.Args[0]), "srcTags") {
+								usedInInit = true
+							}
+						}
+					}
+				}
+				return true
+			})
+			prov = usedInInit
+		}
+		l.p("/-- pipe.worker.run computes the provenance fields itself, from its own source tag line (`field.Parse(w.srcTags…)` handed to")
+		l.p("the iterator's init) — not from a value cached elsewhere (a descriptor loaded from disk would not have it) -/")
+		l.p("def workerProvenanceFromSrcTags : Bool := %s", leanBool(prov))
 		l.write()
 	}
 }
